@@ -101,6 +101,8 @@ def extract_module(path):
             calls = []
             boolc = set()
             kinds = {}
+            intents = {}
+            copyback = {}        # dummy -> local it is assigned from after the call
             for b in body:
                 md = re.match(r"^(integer|real|logical|character|type|class|complex)\b([^:]*)::\s*(.+)$", b, flags=re.I)
                 if md:
@@ -110,6 +112,8 @@ def extract_module(path):
                         nm = re.match(r"^(\w+)", ent).group(1)
                         if nm not in dummies:
                             continue
+                        mi = re.search(r"intent\((\w+)\)", attrs)
+                        intents[nm] = mi.group(1) if mi else ""
                         isarr = "(" in ent or "dimension" in attrs
                         if base in ("integer", "real"):
                             kinds[nm] = "DArr" if isarr else "DNum"
@@ -131,6 +135,9 @@ def extract_module(path):
                     locals_[mm.group(1)] = mm.group(2).strip()
                     if re.match(r"^\w+$", mm.group(2).strip()):
                         boolc.add(mm.group(1))
+                mm = re.match(r"^(\w+)\s*=\s*(SH_\w+)\s*(?:!.*)?$", b)
+                if mm and calls and mm.group(1) in dummies:
+                    copyback[mm.group(1)] = mm.group(2)
             row = {"name": name, "dummies": dummies, "kinds": kinds, "calls": []}
             for cname, args in calls:
                 cl = []
@@ -138,6 +145,13 @@ def extract_module(path):
                     c, r = classify(a, dummies, locals_)
                     if a.strip() in boolc and c == "FDirect":
                         c = "FBool"
+                    # a logical passed through a local of kind C_BOOL: coerced before the call (in / inout), copied back after it
+                    # (out / inout); an output that is never copied back is left unrecognised (fail closed)
+                    if c == "FLocal" and a.strip().startswith("SH_") and a.strip()[3:] in dummies and kinds.get(a.strip()[3:]) == "DLog" \
+                            and intents.get(a.strip()[3:]) == "out" and copyback.get(a.strip()[3:]) == a.strip():
+                        c, r = "FBool", a.strip()[3:]
+                    if c == "FBool" and intents.get(r) in ("out", "inout") and copyback.get(r) != a.strip():
+                        c = "FLocal"
                     if c in ("FLen", "FLenTrim", "FSize") and re.match(r"^(DSH|SHT|SHF|SHadow)", r):
                         c = "FResult"         # the length of the result variable
                     cl.append((c, r))
